@@ -765,6 +765,8 @@ impl Scenario for C05 {
     }
 
     fn run(&self, case: &Case, ctx: &Arc<RunCtx>) -> RunOut {
+        // switch threads only at this scenario's own layer's sites (see sched::Baton::allow)
+        crate::sched::set_allowed_sites(&["c05.", "graph."]);
         let mut out = RunOut::default();
         let nthreads = case.threads.len();
         if nthreads == 0 || nthreads > 8 {
